@@ -37,8 +37,8 @@ func profiles() map[string]world.Profile {
 		"Clear": 1, "StateSize": 3, "ProcessEvent": 30, "SetReadOnly": 8, "SetKey": 12}
 	capacity := map[string]int{"AddFact": 30, "AddRule": 12, "RemFact": 10, "RemRule": 5, "EnableRule": 6,
 		"StateSize": 10, "GetFact": 5, "Clear": 2}
-	parents := map[string]int{"AddFact": 18, "RemFact": 5, "AddRule": 14, "RemRule": 5, "SetParents": 10, "GetParents": 4,
-		"SearchFacts": 14, "ProcessEvent": 14, "ListRules": 5, "SearchRules": 5, "EnableRule": 5, "GetFact": 4}
+	parents := map[string]int{"AddFact": 18, "RemFact": 5, "AddRule": 14, "RemRule": 5, "SetParents": 10, "GetParents": 6,
+		"SearchFacts": 14, "ProcessEvent": 14, "ListRules": 5, "SearchRules": 5, "EnableRule": 5, "GetFact": 4, "Clear": 4}
 	lifecycle := map[string]int{"AddRule": 22, "RemRule": 8, "EnableRule": 14, "ProcessEvent": 30, "Reload": 6,
 		"SetKey": 4, "AddFact": 4, "RemFact": 3, "SetParents": 8, "GetRule": 3, "ListRules": 3}
 	dispatch := map[string]int{"AddFact": 22, "RemFact": 6, "AddRule": 18, "RemRule": 5, "ProcessEvent": 40, "EnableRule": 4, "SetParents": 8}
@@ -194,6 +194,19 @@ func main() {
 							time.Sleep(time.Duration(1100+g.R.Intn(1000)) * time.Millisecond)
 							w.Do(world.Op{Op: "Reload", Loc: op.Loc})
 							continue
+						}
+						if *faults && *store == "bolt" && k == p.Len*2/3 && g.R.Intn(2) == 0 {
+							// a key Bolt refuses (its limit is 32768 bytes; ids are not length-checked on the way in):
+							// the operation must say so, not acknowledge a write that is not in the file
+							if g.R.Intn(2) == 0 {
+								w.Do(world.Op{Op: "AddFact", Loc: op.Loc, Id: strings.Repeat("k", 40000), Val: map[string]interface{}{"a": 1.0}, Refused: true})
+							} else {
+								long := strings.Repeat("r", 32764) // fits; the id of its property fact "!<id>.disabled" does not
+								w.Do(world.Op{Op: "AddRule", Loc: op.Loc, Id: long, Val: map[string]interface{}{
+									"when": map[string]interface{}{"pattern": map[string]interface{}{"a": 1.0}}, "action": map[string]interface{}{"code": "1"}}})
+								w.Do(world.Op{Op: "EnableRule", Loc: op.Loc, Id: long, Flag: false, Refused: true})
+							}
+							break
 						}
 						if *faults && k >= p.Len/2 && g.R.Intn(6) == 0 {
 							op.FailIn = 1 + g.R.Intn(3)
